@@ -893,15 +893,20 @@ def selftest():
             back = datetime.datetime.strptime(render_stamp(t, fmt, False), fmt)
             assert (back.month, back.day, back.hour, back.minute, back.second) == (3, 5, 15, 4, 9), fmt
     assert render_stamp(t, "%b %d %H:%M:%S", True) == "Mar  5 15:04:09"
+    for hour in (0, 1, 11, 12, 13, 23):
+        t2 = [2031, 12, 31, hour, 0, 59, 0]
+        fmt = "%b %d, %Y %I:%M:%S %p"
+        assert render_stamp(t2, fmt, False) == datetime.datetime(*t2).strftime(fmt), (hour, render_stamp(t2, fmt, False))
+        assert datetime.datetime.strptime(render_stamp(t2, fmt, False), fmt) == datetime.datetime(*t2), hour
     assert _ascii_lower("No Such FILE K") == "no such file K"
 
 
 SUBS = [
-    Sub("command", check_command, strategy=strat_command, quick=1500, thorough=20000, workers_quick=2),
-    Sub("json", check_json, strategy=strat_json, quick=1200, thorough=20000, workers_quick=2),
-    Sub("yaml", check_yaml, strategy=strat_yaml, quick=800, thorough=15000, workers_quick=2),
-    Sub("log_get", check_get, strategy=strat_get, quick=1500, thorough=20000, workers_quick=2),
-    Sub("log_after", check_after, strategy=strat_after, quick=1500, thorough=20000, workers_quick=2),
+    Sub("command", check_command, strategy=strat_command, quick=1000, thorough=10000, workers_quick=2),
+    Sub("json", check_json, strategy=strat_json, quick=900, thorough=10000, workers_quick=2),
+    Sub("yaml", check_yaml, strategy=strat_yaml, quick=600, thorough=8000, workers_quick=2),
+    Sub("log_get", check_get, strategy=strat_get, quick=1000, thorough=10000, workers_quick=2),
+    Sub("log_after", check_after, strategy=strat_after, quick=1200, thorough=12000, workers_quick=2),
 ]
 
 REGRESSIONS = [
